@@ -76,8 +76,8 @@ Print Assumptions C15_explicit_panic_iff_step_without_links.
 
 (* InTotoVerify with all component models plugged in (model/PipelineInst.v): unconditional *)
 Theorem C15_no_panic_in_toto_verify :
-  forall now truths tc tcc cmds fuel w path d layout_env keys step_name params inter,
-    is_panic (fst (fst (verify_inst now truths tc tcc cmds fuel w path d layout_env keys step_name params inter))) = false.
+  forall now truths tc tcc pems cmds fuel w path d layout_env keys step_name params inter,
+    is_panic (fst (fst (verify_inst now truths tc tcc pems cmds fuel w path d layout_env keys step_name params inter))) = false.
 Proof. exact verify_inst_no_panic. Qed.
 Print Assumptions C15_no_panic_in_toto_verify.
 
@@ -100,8 +100,8 @@ Print Assumptions C15_no_panic_in_toto_verify_with_directory.
 
 (* the line the end-to-end correspondence harness compares with the real InTotoVerify is never PANIC *)
 Theorem C15_e2e_never_panic_line :
-  forall now truths tc tcc cmds prefix files d layout_env keys step_name params,
-    has_prefix (e2e_run now truths tc tcc cmds prefix files d layout_env keys step_name params) (bs "PANIC") = false.
+  forall now truths tc tcc pems cmds prefix files d layout_env keys step_name params,
+    has_prefix (e2e_run now truths tc tcc pems cmds prefix files d layout_env keys step_name params) (bs "PANIC") = false.
 Proof. exact e2e_run_never_panics. Qed.
 Print Assumptions C15_e2e_never_panic_line.
 
@@ -232,10 +232,10 @@ Print Assumptions C15_no_panic_cert_constraints.
    ./check C14 for RunCommand. *)
 Theorem C15_no_hang :
   (forall p n, gmatch_x p n <> XFuel) /\
-  (forall now truths tc tcc cmds f1 f2 d, (ld_depth d < f1)%nat -> (ld_depth d < f2)%nat ->
+  (forall now truths tc tcc pems cmds f1 f2 d, (ld_depth d < f1)%nat -> (ld_depth d < f2)%nat ->
      forall w path layout_env keys step_name params inter,
-       verify_inst now truths tc tcc cmds f1 w path d layout_env keys step_name params inter =
-       verify_inst now truths tc tcc cmds f2 w path d layout_env keys step_name params inter).
+       verify_inst now truths tc tcc pems cmds f1 w path d layout_env keys step_name params inter =
+       verify_inst now truths tc tcc pems cmds f2 w path d layout_env keys step_name params inter).
 Proof. exact (conj (fun p n => proj2 (gmatch_no_panic p n)) verify_inst_fuel_stable). Qed.
 Print Assumptions C15_no_hang.
 
@@ -275,11 +275,11 @@ Module Ex.
 End Ex.
 
 Example C15_example_accepting_run :
-  is_ok (fst (fst (verify_inst 0%Z Ex.truths [] [] [] 3 (mkWorld [] []) [] Ex.dir Ex.lenv [(Ex.kid, Ex.k)] [] [] []))) = true /\
+  is_ok (fst (fst (verify_inst 0%Z Ex.truths [] [] [] [] 3 (mkWorld [] []) [] Ex.dir Ex.lenv [(Ex.kid, Ex.k)] [] [] []))) = true /\
   (* the same layout without the link: an error, and with fuel 0: the distinct fuel error — never a panic *)
-  fst (fst (verify_inst 0%Z Ex.truths [] [] [] 3 (mkWorld [] []) [] (LinkDir [] []) Ex.lenv [(Ex.kid, Ex.k)] [] [] []))
+  fst (fst (verify_inst 0%Z Ex.truths [] [] [] [] 3 (mkWorld [] []) [] (LinkDir [] []) Ex.lenv [(Ex.kid, Ex.k)] [] [] []))
     = Err err_load_threshold /\
-  fst (fst (verify_inst 0%Z Ex.truths [] [] [] 0 (mkWorld [] []) [] Ex.dir Ex.lenv [(Ex.kid, Ex.k)] [] [] [])) = Err e_fuel.
+  fst (fst (verify_inst 0%Z Ex.truths [] [] [] [] 0 (mkWorld [] []) [] Ex.dir Ex.lenv [(Ex.kid, Ex.k)] [] [] [])) = Err e_fuel.
 Proof. repeat split; vm_compute; reflexivity. Qed.
 
 (* key material: a well-formed ed25519 key passes, the F15 inputs are errors *)
